@@ -37,6 +37,7 @@ func runFault(c *hx.Ctx, seq *Seq, counts []int, K int) {
 	}
 	w := newWorld(c, seq)
 	defer w.cleanup()
+	w.faultMode = true
 	w.oracleInit()
 	cs := Case{Seq: *seq, Mode: "fault", Index: K}
 	kind := opName(seq.Ops[opI].K)
@@ -99,8 +100,16 @@ func runFault(c *hx.Ctx, seq *Seq, counts []int, K int) {
 			c.Violation(classFor("later-store-fails"), where+fmt.Sprintf("later store (op %d) fails on the same process: %v", idx, err), cs, false)
 			return
 		}
-		// same process vs the disk
+		// same process vs the disk. The reader observations of a second Blockchain on the live database never
+		// touch its (lazy) running filter; event queries of a fresh process DO initialise it, and since the
+		// repair that initialisation deletes the persisted snapshot: they run on a private copy of the image
+		// (freshProbe) so that the probe does not change the database under test.
 		fresh := chain.NewNode(w.inner, seq.NewState, w.opts()...)
+		freshProbe := func() (bool, string) {
+			img := w.copyImage(w.inner)
+			defer closeIfPebble(img)
+			return eventsOK(chain.NewNode(img, seq.NewState, w.opts()...), img, w.lo)
+		}
 		so, fo := readerObs(w.t, w.reg, w.lo), readerObs(fresh, w.reg, w.lo)
 		if so != fo {
 			c.Violation(classFor("reader-differs"), where+fmt.Sprintf("after op %d the same process answers\n   %s\n  a fresh process on the same database\n   %s", idx, so, fo), cs, false)
@@ -117,16 +126,35 @@ func runFault(c *hx.Ctx, seq *Seq, counts []int, K int) {
 		detail = evWhat
 		ml := or.Ask(fmt.Sprintf("fault %x %d ; ", W, K)+strings.Join(w.mops, " ; "), 1)[0]
 		mp := strings.Split(ml, " # ")
-		if len(mp) != 3 {
+		if len(mp) != 3 || len(strings.Fields(mp[1])) != 5 {
 			hx.Fatalf("oracle reply %q", ml)
 		}
 		enc := encD
+		if !evOK && strings.Fields(mp[1])[0] != "1" && strings.Fields(mp[1])[4] != "1" {
+			// The history reverted a block after a mid-life snapshot (snap_discipline false). Is the wrong answer
+			// the stale snapshot's doing, independent of the injected failure? Then the FAULT-FREE model run of
+			// the same operations has the same defect (a restarted process accepted the stale snapshot): that
+			// is the crash class that survives the repair, not a memory/disk disagreement caused by the fault.
+			free := strings.Split(or.Ask(fmt.Sprintf("fault %x %d ; ", W, 10000)+strings.Join(w.mops, " ; "), 1)[0], " # ")
+			if len(free) == 3 && strings.Fields(free[1])[0] != "1" {
+				c.Hist["stale-midlife-snapshot-accepted-by-restarted-process"]++
+				c.Violation("crash:stale-filter-snapshot:event-false-negatives", where+fmt.Sprintf("after op %d the restarted process answers from a stale mid-life snapshot (as in the fault-free run): %s", idx, evWhat), cs, false)
+				if mp[0] != enc {
+					c.Violation("model-mismatch:fault-disk", where+fmt.Sprintf("after op %d disk differs from the model's\n   impl : %s\n   model: %s", idx, enc, mp[0]), cs, true)
+				}
+				return
+			}
+		}
 		if !evOK && !strings.Contains(enc, "snap=-") && !(kind == "store" && snapshotAfter(seq.Ops, opI)) &&
 			!strings.Contains(evWhat, "initialize the running event filter") {
 			// is it the disk (a fresh process is wrong too) and is a persisted snapshot involved? Then it is
 			// the stale-snapshot defect (crash class), not a memory/disk disagreement of this process
-			if okFresh, _ := eventsOK(chain.NewNode(w.inner, seq.NewState, w.opts()...), w.inner, w.lo); !okFresh {
-				c.Violation("crash:stale-filter-snapshot:event-false-negatives", where+fmt.Sprintf("after op %d a fresh process and the restarted process both miss events: %s", idx, evWhat), cs, false)
+			if okFresh, _ := freshProbe(); !okFresh {
+				class := "crash:stale-shutdown-snapshot:event-false-negatives"
+				if strings.Fields(mp[1])[4] != "1" {
+					class = "crash:stale-filter-snapshot:event-false-negatives" // mid-life snapshot + revert: survives the repair
+				}
+				c.Violation(class, where+fmt.Sprintf("after op %d a fresh process and the restarted process both miss events: %s", idx, evWhat), cs, false)
 				return
 			}
 		}
@@ -137,7 +165,7 @@ func runFault(c *hx.Ctx, seq *Seq, counts []int, K int) {
 			// chain reaches below the running window.
 			var rfFrom uint64
 			fmt.Sscanf(strings.SplitN(mp[2], "~", 2)[0], "%x", &rfFrom)
-			if okFresh, _ := eventsOK(fresh, w.inner, w.lo); okFresh && rfFrom > w.lo {
+			if okFresh, _ := freshProbe(); okFresh && rfFrom > w.lo {
 				c.Hist["c09-stale-window-cache-observed(not-a-C05-violation)"]++
 				return
 			}
